@@ -75,6 +75,13 @@ class Model:
 
     @property
     def A(self):
+        if getattr(self, "trim", None):
+            # sources registered on their own domain: a sub-range of the (uniform) filter grid - the common domain is that sub-range
+            a, b = self.trim
+            x = np.asarray(self.domain, dtype=float)
+            sl = slice(a, len(x) - b)
+            q, _ = trapz_np(self.sources[:, None, :] * self.F[None, :, sl], x=x[sl], dx=1.0)
+            return q.T
         return self.capture(self.sources).T
 
     def apply(self, step):
@@ -82,6 +89,9 @@ class Model:
         op = step["op"]
         if op == "system":
             self.sources = np.asarray(step["sources"], dtype=float)
+            self.trim = step.get("trim")
+            if self.trim:
+                self.sources = self.sources[:, self.trim[0]: self.sources.shape[1] - self.trim[1]]
             n = self.sources.shape[0]
             self.lb = np.zeros(n) if step.get("lb") is None else np.broadcast_to(np.asarray(step["lb"], dtype=float), (n,)).copy()
             self.ub = np.full(n, np.inf) if step.get("ub") is None else np.broadcast_to(np.asarray(step["ub"], dtype=float), (n,)).copy()
@@ -134,7 +144,11 @@ def build(model: Model, with_state=True):
     est = dreye.ReceptorEstimator(model.F.copy(), domain=dom, w=model.w.copy(), K=(model.K.copy() if model.K.size > 1 else float(model.K[0])),
                                   baseline=(model.baseline.copy() if model.baseline.size > 1 else float(model.baseline[0])))
     if with_state and model.registered:
-        est.register_system(model.sources.copy(), lb=model.lb.copy(), ub=(None if not np.all(np.isfinite(model.ub)) else model.ub.copy()))
+        tkw = {}
+        if getattr(model, "trim", None):
+            xd = np.asarray(model.domain, dtype=float)
+            tkw["domain"] = xd[model.trim[0]: len(xd) - model.trim[1]].copy()
+        est.register_system(model.sources.copy(), lb=model.lb.copy(), ub=(None if not np.all(np.isfinite(model.ub)) else model.ub.copy()), **tkw)
         if not np.all(np.isfinite(model.ub)) and np.any(np.isfinite(model.ub)):
             est.register_bounds(ub=model.ub.copy())
         if model.targets is not None:
@@ -147,7 +161,13 @@ def apply_to_estimator(est, step, n):
     op = step["op"]
     a = lambda v: None if v is None else (np.asarray(v, dtype=float) if np.ndim(v) else float(v))
     if op == "system":
-        est.register_system(np.asarray(step["sources"], dtype=float), lb=a(step.get("lb")), ub=a(step.get("ub")))
+        src_ = np.asarray(step["sources"], dtype=float)
+        tkw = {}
+        if step.get("trim"):
+            xd = np.asarray(est.domain, dtype=float)
+            src_ = src_[:, step["trim"][0]: src_.shape[1] - step["trim"][1]]
+            tkw["domain"] = xd[step["trim"][0]: len(xd) - step["trim"][1]].copy()
+        est.register_system(src_, lb=a(step.get("lb")), ub=a(step.get("ub")), **tkw)
     elif op == "adaptation":
         est.register_adaptation(a(step["K"]))
     elif op == "baseline":
@@ -345,11 +365,16 @@ def battery(est, model, hist, heavy, labs):
     if model.registered:
         check(np.array_equal(np.asarray(est.lb, dtype=float), model.lb) and np.array_equal(np.asarray(est.ub, dtype=float), model.ub), "model:bounds",
               f"after {hist}: registered bounds lb={np.asarray(est.lb).tolist()} ub={np.asarray(est.ub).tolist()} differ from the reference model lb={model.lb.tolist()} ub={model.ub.tolist()}")
-        check(np.array_equal(np.asarray(est.sources, dtype=float), model.sources), "model:sources", f"after {hist}: registered sources differ from the reference model")
+        if getattr(model, "trim", None):
+            check(np.asarray(est.sources).shape == model.sources.shape and np.allclose(np.asarray(est.sources, dtype=float), model.sources, rtol=1e-12, atol=1e-300),
+                  "model:sources", f"after {hist}: registered sources (own domain) differ from the reference model")
+        else:
+            check(np.array_equal(np.asarray(est.sources, dtype=float), model.sources), "model:sources", f"after {hist}: registered sources differ from the reference model")
     # ... and the twin is built from exactly those values (bit-identical inputs => bit-identical answers are required)
     tm = Model(model.F, model.domain, model.w)
     tm.K, tm.baseline = np.asarray(est.K, dtype=float).copy(), np.asarray(est.baseline, dtype=float).copy()
     tm.sources, tm.lb, tm.ub, tm.targets = model.sources, model.lb, model.ub, model.targets
+    tm.trim = getattr(model, "trim", None)
     with calling("twin construction"):
         twin = build(tm)
     # (1) closed-form answers from the model
@@ -457,8 +482,13 @@ def body_enum(case):
 def random_history(draw):
     """random histories of 3-10 steps with drawn arguments (own universe: filters, domain, weights)."""
     nd = draw(st.integers(5, 10))
-    kind = draw(st.sampled_from(["step", "array"]))
-    domain = draw(st.sampled_from([1.0, 0.5, 2.0])) if kind == "step" else draw(gens.ascending_domain(nd, lo_gap=0.2, hi_gap=3.0))
+    kind = draw(st.sampled_from(["step", "array", "uniform-array"]))
+    if kind == "uniform-array":
+        nd = draw(st.integers(8, 12))
+        h_ = draw(st.sampled_from([1.0, 0.5, 2.0, 5.0]))
+        domain = [300.0 + k * h_ for k in range(nd)]
+    else:
+        domain = draw(st.sampled_from([1.0, 0.5, 2.0])) if kind == "step" else draw(gens.ascending_domain(nd, lo_gap=0.2, hi_gap=3.0))
     x = [k * domain for k in range(nd)] if kind == "step" else domain
     span = (x[-1] - x[0]) or 1.0
 
@@ -480,7 +510,13 @@ def random_history(draw):
             lb = draw(st.one_of(st.none(), st.just([0.0] * n)))
             if ub is not None and draw(st.integers(0, 2)) == 0:
                 lb = [0.1 * u for u in ub]
-            steps.append(dict(op="system", sources=bumps(n), lb=lb, ub=ub))
+            st_ = dict(op="system", sources=bumps(n), lb=lb, ub=ub)
+            if kind == "uniform-array" and draw(st.booleans()):
+                # the sources come on their own (narrower) wavelength grid: a sub-range of the filters' grid
+                st_["trim"] = [draw(st.integers(0, 2)), draw(st.integers(0, 2))]
+                if st_["trim"] == [0, 0]:
+                    st_["trim"] = [1, 0]
+            steps.append(st_)
         elif op == "bounds":
             which = draw(st.sampled_from(["lb", "ub", "both"]))
             s = dict(op="bounds")
